@@ -790,6 +790,7 @@ fn main() {
 		}
 		for (q, e) in log.into_iter().enumerate() {
 			let mut e = e;
+			if e["ev"] == "sync" { e["kind"] = sc["kind"].clone(); e["hist"] = sc["hist"].clone(); }
 			e["run"] = json!(run);
 			e["seq"] = json!(q + 1);
 			tw.emit(e);
